@@ -1,7 +1,13 @@
-(* C09: splitting — first layer (slicing arithmetic of splice). *)
-From Coq Require Import List Arith Lia Bool NArith.
-From DSD Require Import Base.Str Base.Errors Model.ComplexUtils.
+(* C09: splitting — facts that hold for every table (no well-formedness):
+   the scan, the fuel, the strands of the parts; and the connected case on
+   tree tables. *)
+From Coq Require Import List Arith Lia Bool NArith Permutation Sorted.
+From DSD Require Import Base.Str Base.Errors Model.ComplexUtils Dyck.Dyck
+  Proofs.Mpt Proofs.Db Proofs.Assoc Proofs.Loops.
 Import ListNotations.
+
+(* ------------------------------------------------------------------ *)
+(* slicing                                                              *)
 
 Lemma slice_length {A} (l : list A) i j : j <= length l -> length (slice l i j) = j - i.
 Proof. intros H. unfold slice. rewrite firstn_length, skipn_length. lia. Qed.
@@ -15,4 +21,322 @@ Proof.
   intros Hij Hj. unfold splice. split.
   - apply slice_length. lia.
   - rewrite app_length, firstn_length, skipn_length. lia.
+Qed.
+
+Lemma skipn_skipn' {A} (l : list A) : forall a b, skipn a (skipn b l) = skipn (b + a) l.
+Proof.
+  induction l as [|x l IH]; intros a b.
+  - rewrite !skipn_nil. reflexivity.
+  - destruct b as [|b]; [reflexivity|]. cbn [skipn Nat.add]. apply IH.
+Qed.
+
+Lemma slice_decomp {A} (l : list A) i j :
+  i <= j -> l = firstn i l ++ slice l i j ++ skipn j l.
+Proof.
+  intros Hij. unfold slice.
+  rewrite <- (firstn_skipn i l) at 1. f_equal.
+  rewrite <- (firstn_skipn (j - i) (skipn i l)) at 1. f_equal.
+  rewrite skipn_skipn'. f_equal. lia.
+Qed.
+
+Lemma slice_map {A B} (f : A -> B) l i j : slice (map f l) i j = map f (slice l i j).
+Proof. unfold slice. rewrite skipn_map, firstn_map. reflexivity. Qed.
+
+(* ------------------------------------------------------------------ *)
+(* the scan                                                             *)
+
+Lemma chain_length fr ls : length (chain fr ls) = length ls.
+Proof. revert fr; induction ls as [|l r IH]; intros fr; cbn; auto. Qed.
+
+(* SSplice i j: i <= j < n - 1, for every list of intervals *)
+Lemma scan_bounds ext : forall seen j n a b,
+  (forall k v, lookup k seen = Some v -> v <= j) ->
+  j + length ext = n ->
+  split_scan n seen j ext = SSplice a b -> a <= b /\ S b < n.
+Proof.
+  induction ext as [|[fr to] ext IH]; intros seen j n a b Hinv Hn H; cbn [split_scan] in H; [discriminate|].
+  destruct (lookup fr seen) as [v|]; [|discriminate].
+  destruct (negb (v =? j)); [discriminate|].
+  cbn [length] in Hn.
+  destruct (j =? n - 1) eqn:Ej.
+  - destruct (lookup to seen); discriminate.
+  - apply Nat.eqb_neq in Ej.
+    destruct (lookup to seen) as [i|] eqn:El.
+    + injection H as <- <-. split; [apply (Hinv to), El|lia].
+    + apply (IH ((to, S j) :: seen) (S j) n a b); [|lia|exact H].
+      intros k v'. cbn [lookup]. destruct (k =? to).
+      * intros E; injection E as <-. lia.
+      * intros E. apply Hinv in E. lia.
+Qed.
+
+Lemma eAssert_not_fuel : eAssert <> eFuel.
+Proof. intros H. vm_compute in H. discriminate. Qed.
+Lemma eIndex_not_fuel : eIndex <> eFuel.
+Proof. intros H. vm_compute in H. discriminate. Qed.
+Lemma eSSE_not_fuel : eSSE <> eFuel.
+Proof. intros H. vm_compute in H. discriminate. Qed.
+
+Lemma SFail_inj a b : SFail a = SFail b -> a = b.
+Proof. intros H. exact (f_equal (fun x => match x with SFail k => k | _ => [] end) H). Qed.
+
+Lemma scan_not_fuel ext : forall seen j n,
+  ext <> [] -> j + length ext = n -> split_scan n seen j ext <> SFail eFuel.
+Proof.
+  induction ext as [|[fr to] ext IH]; intros seen j n Hne Hn; [congruence|].
+  cbn [split_scan]. cbn [length] in Hn.
+  destruct (lookup fr seen) as [v|]; [|intros H; exact (eAssert_not_fuel (SFail_inj _ _ H))].
+  destruct (negb (v =? j)); [intros H; exact (eAssert_not_fuel (SFail_inj _ _ H))|].
+  destruct (j =? n - 1) eqn:Ej.
+  - destruct (lookup to seen); [discriminate|intros H; exact (eAssert_not_fuel (SFail_inj _ _ H))].
+  - apply Nat.eqb_neq in Ej. destruct (lookup to seen); [discriminate|].
+    apply IH; [|lia]. destruct ext; [cbn in Hn; lia|discriminate].
+Qed.
+
+(* all break loops distinct: the scan runs to the end and yields *)
+Lemma scan_yield ls : forall seen j fr n,
+  lookup fr seen = Some j -> j + S (length ls) = n ->
+  (forall x, In x ls -> lookup x seen = None) -> NoDup ls -> lookup 0 seen <> None ->
+  split_scan n seen j (chain fr (ls ++ [0])) = SYield.
+Proof.
+  induction ls as [|l r IH]; intros seen j fr n Hfr Hn Hnew Hnd H0; cbn [app chain split_scan].
+  - rewrite Hfr, Nat.eqb_refl. cbn [negb]. cbn [length] in Hn.
+    replace (j =? n - 1) with true by (symmetry; apply Nat.eqb_eq; lia).
+    destruct (lookup 0 seen); [reflexivity|congruence].
+  - rewrite Hfr, Nat.eqb_refl. cbn [negb]. cbn [length] in Hn.
+    replace (j =? n - 1) with false by (symmetry; apply Nat.eqb_neq; lia).
+    rewrite (Hnew l) by (left; reflexivity).
+    inversion Hnd as [|? ? Hl Hr]; subst.
+    apply IH.
+    + cbn [lookup]. rewrite Nat.eqb_refl. reflexivity.
+    + lia.
+    + intros x Hx. cbn [lookup]. destruct (x =? l) eqn:E.
+      * apply Nat.eqb_eq in E. subst x. contradiction.
+      * apply Hnew. right. exact Hx.
+    + exact Hr.
+    + cbn [lookup]. destruct (0 =? l); [discriminate|exact H0].
+Qed.
+
+(* ------------------------------------------------------------------ *)
+(* split_connected_id                                                   *)
+
+Theorem split_connected_id {A} (stab : list (list A)) d fuel :
+  NoDup (ends d) -> split_complex_pt (S fuel) stab (tab_of d) = Ok [(stab, tab_of d)].
+Proof.
+  intros Hnd. cbn [split_complex_pt]. rewrite li_spec_comp. cbn [rbind snd].
+  unfold ends in *.
+  assert (Hy : split_scan (length (chain 0 (bl d 0 0 ++ [0]))) [(0, 0)] 0 (chain 0 (bl d 0 0 ++ [0])) = SYield).
+  { apply scan_yield.
+    - reflexivity.
+    - rewrite chain_length, app_length. cbn [length]. lia.
+    - intros x Hx. cbn [lookup]. destruct (x =? 0) eqn:E; [|reflexivity].
+      apply Nat.eqb_eq in E. subst x. exfalso.
+      apply NoDup_remove_2 in Hnd. rewrite app_nil_r in Hnd. contradiction.
+    - apply NoDup_remove_1 in Hnd. rewrite app_nil_r in Hnd. exact Hnd.
+    - discriminate. }
+  destruct (chain 0 (bl d 0 0 ++ [0])) as [|e ext] eqn:E.
+  - destruct (bl d 0 0); discriminate.
+  - rewrite Hy. reflexivity.
+Qed.
+
+(* ------------------------------------------------------------------ *)
+(* make_loop_index_comp on any table: one interval per strand, only IndexError *)
+
+Lemma li_rows_comp_len t : forall s si ext my r,
+  li_rows true s si ext my t = Ok r -> length (snd r) = length my + length t.
+Proof.
+  induction t as [|row t IH]; intros s si ext my r H; cbn [li_rows] in H.
+  - injection H as <-. cbn. lia.
+  - destruct (li_row _ si 0 row) as [s1|k]; cbn [rbind] in H; [|discriminate].
+    destruct (existsb _ ext); apply IH in H; rewrite H, app_length; cbn [length]; lia.
+Qed.
+
+Lemma li_comp_len t le : make_loop_index_comp t = Ok le -> length (snd le) = length t.
+Proof.
+  unfold make_loop_index_comp, make_loop_index_raw.
+  destruct (li_rows true _ 0 [] [] t) as [r|k] eqn:E; cbn [rbind]; [|discriminate].
+  intros H. injection H as <-. cbn [snd]. apply li_rows_comp_len in E. exact E.
+Qed.
+
+Lemma li_pos_err s si di e k : li_pos s si di e = Err k -> k = eIndex.
+Proof.
+  unfold li_pos. destruct e as [p|]; [|discriminate].
+  destruct (loc_ltb (si, di) p); destruct (loc_ltb p (si, di)); try discriminate.
+  - destruct (l_stack s); [|discriminate]. intros H; injection H as <-. reflexivity.
+Qed.
+
+Lemma li_row_err r : forall s si di k, li_row s si di r = Err k -> k = eIndex.
+Proof.
+  induction r as [|e r IH]; intros s si di k H; cbn [li_row] in H; [discriminate|].
+  destruct (li_pos s si di e) as [s1|k1] eqn:E; cbn [rbind] in H.
+  - eapply IH, H.
+  - injection H as <-. eapply li_pos_err, E.
+Qed.
+
+Lemma li_rows_comp_err t : forall s si ext my k,
+  li_rows true s si ext my t = Err k -> k = eIndex.
+Proof.
+  induction t as [|row t IH]; intros s si ext my k H; cbn [li_rows] in H; [discriminate|].
+  destruct (li_row _ si 0 row) as [s1|k1] eqn:E; cbn [rbind] in H.
+  - destruct (existsb _ ext); eapply IH, H.
+  - injection H as <-. eapply li_row_err, E.
+Qed.
+
+Lemma li_comp_err t k : make_loop_index_comp t = Err k -> k = eIndex.
+Proof.
+  unfold make_loop_index_comp, make_loop_index_raw.
+  destruct (li_rows true _ 0 [] [] t) as [r|k1] eqn:E; cbn [rbind]; [discriminate|].
+  intros H; injection H as <-. eapply li_rows_comp_err, E.
+Qed.
+
+(* ------------------------------------------------------------------ *)
+(* split_no_fuel: fuel = S (number of strands) always suffices          *)
+
+Lemma scan_start_inv : forall k v, lookup k [(0, 0)] = Some v -> v <= 0.
+Proof. intros k v. cbn. destruct (k =? 0); [intros H; injection H as <-; lia|discriminate]. Qed.
+
+Theorem split_no_fuel {A} fuel : forall (stab : list (list A)) ptab k,
+  length ptab < fuel -> split_complex_pt fuel stab ptab = Err k -> k <> eFuel.
+Proof.
+  induction fuel as [|fuel IH]; intros stab ptab k Hlen H; [lia|].
+  cbn [split_complex_pt] in H.
+  destruct (make_loop_index_comp ptab) as [le|k1] eqn:Eli; cbn [rbind] in H.
+  2:{ injection H as <-. rewrite (li_comp_err _ _ Eli). exact eIndex_not_fuel. }
+  pose proof (li_comp_len _ _ Eli) as Hn. unfold tab, row in *.
+  destruct (snd le) as [|e ext] eqn:Eext; [discriminate|].
+  rewrite <- Eext in H, Hn.
+  destruct (split_scan (length (snd le)) [(0, 0)] 0 (snd le)) as [|i j|k1] eqn:Es.
+  - discriminate.
+  - assert (Hb : i <= j /\ S j < length (snd le)).
+    { eapply scan_bounds; [exact scan_start_inv| |exact Es]. reflexivity. }
+    unfold splice in H.
+    destruct (split_complex_pt fuel (slice stab i (S j)) _) as [a|ka] eqn:Ea; cbn [rbind] in H.
+    + destruct (split_complex_pt fuel (firstn i stab ++ skipn (S j) stab) _) as [b|kb] eqn:Eb; cbn [rbind] in H; [discriminate|].
+      injection H as <-. eapply IH; [|exact Eb].
+      rewrite map_length, app_length, firstn_length, skipn_length. unfold tab, row in *. lia.
+    + injection H as <-. eapply IH; [|exact Ea].
+      unfold tab, row in *. rewrite map_length, slice_length by lia. lia.
+  - injection H as <-.
+    intros ->. eapply scan_not_fuel; [| |exact Es]; [rewrite Eext; discriminate|reflexivity].
+Qed.
+
+(* ------------------------------------------------------------------ *)
+(* split_partition: the strands of the parts, for every table           *)
+
+Definition sel {A} (S0 : list (list A)) (ix : list nat) : list (list A) :=
+  map (fun k => nth k S0 []) ix.
+
+Lemma sel_slice {A} (S0 : list (list A)) ix i j : slice (sel S0 ix) i j = sel S0 (slice ix i j).
+Proof. unfold sel. apply slice_map. Qed.
+Lemma sel_outer {A} (S0 : list (list A)) ix i j :
+  firstn i (sel S0 ix) ++ skipn j (sel S0 ix) = sel S0 (firstn i ix ++ skipn j ix).
+Proof. unfold sel. rewrite map_app, firstn_map, skipn_map. reflexivity. Qed.
+
+Lemma ss_app_iff {A} (R : A -> A -> Prop) a b :
+  StronglySorted R (a ++ b) <->
+  StronglySorted R a /\ StronglySorted R b /\ (forall x y, In x a -> In y b -> R x y).
+Proof.
+  induction a as [|x a IH]; cbn [app].
+  - split; [intros H; repeat split; [constructor|exact H|intros ? ? []]|intros (_ & H & _); exact H].
+  - split.
+    + intros H. inversion H as [|? ? Hs Hf]; subst. apply IH in Hs. destruct Hs as (Ha & Hb & Hab).
+      rewrite Forall_app in Hf. destruct Hf as [Hfa Hfb].
+      split; [constructor; assumption|]. split; [exact Hb|].
+      intros u v [->|Hu] Hv; [rewrite Forall_forall in Hfb; apply Hfb, Hv|apply Hab; assumption].
+    + intros (Ha & Hb & Hab). inversion Ha as [|? ? Hs Hf]; subst. constructor.
+      * apply IH. repeat split; [exact Hs|exact Hb|]. intros u v Hu Hv. apply Hab; [right; exact Hu|exact Hv].
+      * rewrite Forall_app. split; [exact Hf|]. rewrite Forall_forall. intros v Hv. apply Hab; [left; reflexivity|exact Hv].
+Qed.
+
+Lemma ss_splice ix i j :
+  i <= j -> StronglySorted lt ix ->
+  StronglySorted lt (slice ix i j) /\ StronglySorted lt (firstn i ix ++ skipn j ix).
+Proof.
+  intros Hij H. rewrite (slice_decomp ix i j Hij) in H.
+  apply ss_app_iff in H. destruct H as (Ha & Hbc & Habc).
+  apply ss_app_iff in Hbc. destruct Hbc as (Hb & Hc & Hbc).
+  split; [exact Hb|]. apply ss_app_iff. repeat split; [exact Ha|exact Hc|].
+  intros x y Hx Hy. apply Habc; [exact Hx|apply in_or_app; right; exact Hy].
+Qed.
+
+Theorem split_strands {A} (S0 : list (list A)) fuel : forall ix ptab parts,
+  length ix = length ptab ->
+  split_complex_pt fuel (sel S0 ix) ptab = Ok parts ->
+  exists idxs,
+    map fst parts = map (sel S0) idxs /\
+    Permutation (concat idxs) ix /\
+    (StronglySorted lt ix -> Forall (StronglySorted lt) idxs).
+Proof.
+  induction fuel as [|fuel IH]; intros ix ptab parts Hlen H; [discriminate|].
+  cbn [split_complex_pt] in H.
+  destruct (make_loop_index_comp ptab) as [le|k1] eqn:Eli; cbn [rbind] in H; [|discriminate].
+  pose proof (li_comp_len _ _ Eli) as Hn. unfold tab, row in *.
+  destruct (snd le) as [|e ext] eqn:Eext.
+  - injection H as <-. exists []. cbn. split; [reflexivity|]. split; [|constructor].
+    cbn in Hn. destruct ix; [constructor|cbn in Hlen; lia].
+  - rewrite <- Eext in H, Hn.
+    destruct (split_scan (length (snd le)) [(0, 0)] 0 (snd le)) as [|i j|k1] eqn:Es.
+    + injection H as <-. exists [ix]. cbn. rewrite app_nil_r.
+      split; [reflexivity|]. split; [reflexivity|]. intros Hs. constructor; [exact Hs|constructor].
+    + assert (Hb : i <= j /\ S j < length (snd le)).
+      { eapply scan_bounds; [exact scan_start_inv| |exact Es]. reflexivity. }
+      unfold splice in H. rewrite sel_slice, sel_outer in H.
+      destruct (split_complex_pt fuel (sel S0 (slice ix i (S j))) _) as [a|ka] eqn:Ea; cbn [rbind] in H; [|discriminate].
+      destruct (split_complex_pt fuel (sel S0 (firstn i ix ++ skipn (S j) ix)) _) as [b|kb] eqn:Eb; cbn [rbind] in H; [|discriminate].
+      injection H as <-.
+      unfold tab, row in *.
+      apply IH in Ea; [|unfold tab, row in *; rewrite map_length, !slice_length by lia; reflexivity].
+      apply IH in Eb; [|unfold tab, row in *; rewrite map_length, !app_length, !firstn_length, !skipn_length; lia].
+      destruct Ea as (ia & Ha1 & Ha2 & Ha3). destruct Eb as (ib & Hb1 & Hb2 & Hb3).
+      exists (ia ++ ib). rewrite !map_app, Ha1, Hb1. split; [reflexivity|]. split.
+      * rewrite concat_app, Ha2, Hb2.
+        rewrite (slice_decomp ix i (S j)) at 4 by lia.
+        rewrite Permutation_app_comm, <- app_assoc.
+        apply Permutation_app_head. apply Permutation_app_comm.
+      * intros Hs. destruct (ss_splice ix i (S j) ltac:(lia) Hs) as [H1 H2].
+        apply Forall_app. split; [apply Ha3, H1|apply Hb3, H2].
+    + discriminate.
+Qed.
+
+(* the parts' strands are a partition of the input strands, each part in
+   increasing original order, content unchanged *)
+Theorem split_partition {A} (stab : list (list A)) ptab fuel parts :
+  length stab = length ptab ->
+  split_complex_pt fuel stab ptab = Ok parts ->
+  exists idxs,
+    map fst parts = map (sel stab) idxs /\
+    Permutation (concat idxs) (seq 0 (length stab)) /\
+    Forall (StronglySorted lt) idxs.
+Proof.
+  intros Hlen H.
+  assert (Hsel : sel stab (seq 0 (length stab)) = stab).
+  { unfold sel. apply nth_ext with (d := []) (d' := []).
+    - rewrite map_length, seq_length. reflexivity.
+    - intros n Hn. rewrite map_length, seq_length in Hn.
+      rewrite (nth_indep _ [] (nth 0 stab [])) by (rewrite map_length, seq_length; exact Hn).
+      rewrite (map_nth (fun k => nth k stab [])). rewrite seq_nth by exact Hn. reflexivity. }
+  rewrite <- Hsel in H at 1.
+  apply split_strands in H; [|rewrite seq_length; exact Hlen].
+  destruct H as (idxs & H1 & H2 & H3). exists idxs. split; [exact H1|]. split; [exact H2|].
+  apply H3. clear. generalize 0. induction (length stab) as [|n IH]; intros s; cbn [seq]; [constructor|].
+  constructor; [apply IH|]. rewrite Forall_forall. intros x Hx. apply in_seq in Hx. lia.
+Qed.
+
+(* non-vacuity: "(+)+.+(.+.)" with strands a..e *)
+Example ex_split :
+  let d := DP (DB DNil) (DB (DU (DB (DP (DU (DB (DU DNil))) DNil)))) in
+  let stab := [[1]; [2]; [3]; [4; 5]; [6; 7]] in
+  length stab = length (tab_of d) /\
+  split_complex_pt (S (length (tab_of d))) stab (tab_of d) =
+    Ok [ ([[1]; [2]], [[Some (1, 0)]; [Some (0, 0)]]);
+         ([[3]], [[None]]);
+         ([[4; 5]; [6; 7]], [[Some (1, 1); None]; [None; Some (0, 0)]]) ].
+Proof. cbn zeta. split; reflexivity. Qed.
+
+Example ex_split_connected :
+  let d := DP (DU (DB (DP (DB DNil) DNil))) DNil in     (* "(.+(+))" *)
+  NoDup (ends d) /\
+  split_complex_pt 4 [[1; 2]; [3]; [4; 5]] (tab_of d) = Ok [([[1; 2]; [3]; [4; 5]], tab_of d)].
+Proof.
+  cbn zeta. split; [|reflexivity].
+  unfold ends. cbn. repeat constructor; cbn; intuition discriminate.
 Qed.
